@@ -123,7 +123,7 @@ def bandSaturationRow (flr : α → α) (bp : BrkP α) (g : Grid α) (row : List
   g.theta.map fun tj =>
     lsum (List.zipWith (fun (sd : α × α) (tj' : α) =>
       let ma := wrapPi flr (tj' - tj)
-      if width < absv ma then 0 else sd.1 * npow (Transc.cos ma) bp.cosPow * sd.2) (sat.zip g.dth) g.theta)
+      if width + 1 / ((1000000000 : Nat) : α) < absv ma then 0 else sd.1 * npow (Transc.cos ma) bp.cosPow * sd.2) (sat.zip g.dth) g.theta)
 
 def bandSaturation (flr : α → α) (bp : BrkP α) (g : Grid α) (kin : Kin α) (E : List (List α)) : List (List α) :=
   List.zipWith (fun (row : List α) (ck : α × α) => bandSaturationRow flr bp g row ck.1 ck.2) E (kin.cg.zip kin.k)
